@@ -12,7 +12,12 @@ func init() { register("C13", "model_checking", checkC13) }
 // Declarations of the home package of a value expression. HOMEPKG is the package name.
 const c13Home = `package HOMEPKG
 
-import "github.com/google/wire"
+import (
+	"github.com/google/wire"
+	cfgx "{{ROOT}}/settings"
+)
+
+var _ = cfgx.DefaultPort
 
 type S struct {
 	A int
@@ -126,6 +131,10 @@ func c13Bases() []c13Expr {
 		{name: "slice-lit-const-index", expr: "[]int{IdxC: V, C: 9}", typ: "[]int"},
 		{name: "struct-lit-nested-keyed", expr: "struct{ M map[string]S }{M: map[string]S{Str: {A: V}}}", typ: "struct{ M map[string]Q.S }"},
 		{name: "conv-named", expr: "Named(3)", typ: "Q.Named", num: true},
+		// a package the home file imports under another name, mentioned by nothing else in the generated file
+		{name: "renamed-import-var", expr: "cfgx.DefaultPort", typ: "int", num: true},
+		{name: "renamed-import-const-conv", expr: "Named(cfgx.Max)", typ: "Q.Named", num: true},
+		{name: "renamed-import-in-lit", expr: "S{A: cfgx.DefaultPort, B: cfgx.Name}", typ: "Q.S"},
 		{name: "conv-float", expr: "float64(C)", typ: "float64", num: true},
 		{name: "conv-nil-ptr", expr: "(*S)(nil)", typ: "*Q.S"},
 		{name: "conv-func-type", expr: "NFn(nil)", typ: "Q.NFn", noEq: true},
@@ -299,6 +308,7 @@ func c13Render(expr, typ string, homeLib, ifaceValue bool, ifaceType string) map
 	} else {
 		files["home.go"] = home
 	}
+	files["settings/settings.go"] = "package settings\n\nvar DefaultPort = 8080\n\nconst Max = 9\n\nvar Name = \"svc\"\n"
 	files["wire.go"] = "//go:build wireinject\n// +build wireinject\n\npackage p\n\nimport (\n\t\"github.com/google/wire\"\n" + imp + ")\n\nfunc InitV() " + rootType + " {\n\tpanic(wire.Build(" + q + "Set))\n}\n\nfunc InitV2() " + rootType + " {\n\tpanic(wire.Build(" + q + "Set))\n}\n"
 	drv := strings.ReplaceAll(c13Driver, "HOMEIMPORT", imp)
 	drv = strings.ReplaceAll(drv, "HOMEQ", q)
